@@ -262,6 +262,10 @@ pub enum Op {
     /// step with fperiod-sized buffers until the generator is exhausted (at most `max` steps)
     Drain { g: usize, max: usize },
     DropGen { g: usize },
+    /// L2a: put the live generator `g` (after however many steps) into mailbox `b` for another thread ...
+    GiveGen { g: usize, b: usize },
+    /// ... which takes it out (waiting at yield points until it is there or its giver has finished) and goes on pulling it
+    TakeGen { g: usize, b: usize },
     /// forget every engine, generator and recorded waveform: the boundary between two runs that were
     /// executed in the same process (group replay of a violation that needs its predecessors' residue)
     Reset,
@@ -327,6 +331,8 @@ impl TOp {
             Op::Finish { g } => format!("t{} finish g{}", t, g),
             Op::Drain { g, max } => format!("t{} drain g{} {}", t, g, max),
             Op::DropGen { g } => format!("t{} dropgen g{}", t, g),
+            Op::GiveGen { g, b } => format!("t{} givegen g{} {}", t, g, b),
+            Op::TakeGen { g, b } => format!("t{} takegen g{} {}", t, g, b),
             Op::Reset => format!("t{} reset", t),
         }
     }
@@ -385,6 +391,8 @@ impl TOp {
             "finish" => Op::Finish { g: slot(w.get(2)?, 'g')? },
             "drain" => Op::Drain { g: slot(w.get(2)?, 'g')?, max: w.get(3)?.parse().ok()? },
             "dropgen" => Op::DropGen { g: slot(w.get(2)?, 'g')? },
+            "givegen" => Op::GiveGen { g: slot(w.get(2)?, 'g')?, b: w.get(3)?.parse().ok()? },
+            "takegen" => Op::TakeGen { g: slot(w.get(2)?, 'g')?, b: w.get(3)?.parse().ok()? },
             "reset" => Op::Reset,
             _ => return None,
         };
@@ -413,6 +421,8 @@ impl TOp {
             Op::Finish { .. } => "finish",
             Op::Drain { .. } => "drain",
             Op::DropGen { .. } => "dropgen",
+            Op::GiveGen { .. } => "givegen",
+            Op::TakeGen { .. } => "takegen",
             Op::Reset => "reset",
         }
     }
